@@ -356,6 +356,26 @@ def handle (op : String) (args : List String) (impl : Impl) : Option Ans :=
              | .ok (y, mo, d, h, mi, s, ns) => "ok " ++ " ".intercalate ([y, mo, d, h, mi, s, ns].map toString)
              | .err => "err" | .panic => "panic"),
            spec := sp, branch := op ++ ":" ++ signTag e ts }
+  | "fields_rt", ctor :: rest => do
+    -- C09: "the fields of an epoch built from valid fields are those fields", through every constructor (spec only)
+    let ints := rest.filterMap String.toInt?
+    let tsName : String := match rest.getLast? with
+      | some t => if t.toInt?.isSome then (if ctor.startsWith "greg_tai" || ctor == "greg_from_tai" then "TAI" else "UTC") else t
+      | none => "UTC"
+    let want : Option (List Int) := match ctor, ints with
+      | "greg_from", [y, m, d, h, mi, s, ns] | "greg", [y, m, d, h, mi, s, ns]
+      | "greg_from_tai", [y, m, d, h, mi, s, ns] | "greg_from_utc", [y, m, d, h, mi, s, ns] => some [y, m, d, h, mi, s, ns]
+      | "greg_midnight", [y, m, d] | "greg_tai_midnight", [y, m, d] | "greg_utc_midnight", [y, m, d] => some [y, m, d, 0, 0, 0, 0]
+      | "greg_noon", [y, m, d] | "greg_tai_noon", [y, m, d] | "greg_utc_noon", [y, m, d] => some [y, m, d, 12, 0, 0, 0]
+      | "greg_hms", [y, m, d, h, mi, s] | "greg_tai_hms", [y, m, d, h, mi, s] | "greg_utc_hms", [y, m, d, h, mi, s] => some [y, m, d, h, mi, s, 0]
+      | _, _ => none
+    let want ← want
+    let sp := match impl with
+      | .ok [y, m, d, h, mi, s, ns, ts] =>
+        verdict [("fields_of_an_epoch_built_from_fields", [y, m, d, h, mi, s, ns].map String.toInt? == want.map some), ("scale", ts == tsName)]
+      | .ok _ => "FAIL:decode"
+      | .other w => "FAIL:" ++ w
+    pure { model := "-", spec := sp, branch := "fields_rt:" ++ ctor }
   | "greg_rt_tai", [e] | "greg_rt_utc", [e] | "greg_rt", [e] => do
     let (e, ts) ← parseEpoch? e
     let m : Res Dur := match Cal.computeGregorian e ts with
